@@ -109,6 +109,16 @@ def parse_output(text):
     return res
 
 
+def locked_run(cmd, **kw):
+    """cargo kani compiles into the shared target directory and then runs CBMC on the artefacts it left there: two invocations at the same
+    time against different trees could verify each other's artefacts, so Kani invocations are serialised by a file lock"""
+    import fcntl
+    os.makedirs(CACHE, exist_ok=True)
+    with open(os.path.join(CACHE, '.verif-kani.lock'), 'w') as lk:
+        fcntl.flock(lk, fcntl.LOCK_EX)
+        return subprocess.run(cmd, **kw)
+
+
 def run(unit, target_rel, harnesses, jobs=8, timeout=3600, extra_args=(), extra_units=(), keep=False):
     t0 = time.time()
     root = prepare(unit, target_rel, extra_units)
@@ -119,7 +129,7 @@ def run(unit, target_rel, harnesses, jobs=8, timeout=3600, extra_args=(), extra_
         cmd += ['--harness', h]
     out = ''
     try:
-        p = subprocess.run(cmd, cwd=repo, env=kani_env(), capture_output=True, text=True, timeout=timeout)
+        p = locked_run(cmd, cwd=repo, env=kani_env(), capture_output=True, text=True, timeout=timeout)
         out = p.stdout + '\n' + p.stderr
         rc = p.returncode
     except subprocess.TimeoutExpired as e:
@@ -151,7 +161,7 @@ def playback(unit, target_rel, harness, replay_path, timeout=1800, extra_units=(
     try:
         cmd = ['cargo', 'kani', '-p', 'quizx', '--solver', 'kissat', '--output-format', 'terse', '-Z', 'function-contracts',
                '-Z', 'concrete-playback', '--concrete-playback=print', '--harness', harness]
-        p = subprocess.run(cmd, cwd=repo, env=kani_env(), capture_output=True, text=True, timeout=timeout)
+        p = locked_run(cmd, cwd=repo, env=kani_env(), capture_output=True, text=True, timeout=timeout)
         txt = p.stdout + '\n' + p.stderr
         # the printed test is inside a ```rust fenced block (possibly several: one per harness matching the filter)
         blocks = re.findall(r'```(?:rust)?\n(.*?)```', txt, flags=re.S)
@@ -180,7 +190,7 @@ def playback(unit, target_rel, harness, replay_path, timeout=1800, extra_units=(
         s = s[:close] + '\n' + test_src + '\n' + s[close:]
         open(f, 'w').write(s)
         cmd2 = ['cargo', 'kani', 'playback', '-p', 'quizx', '-Z', 'concrete-playback', '--', tname]
-        p2 = subprocess.run(cmd2, cwd=repo, env=kani_env(), capture_output=True, text=True, timeout=timeout)
+        p2 = locked_run(cmd2, cwd=repo, env=kani_env(), capture_output=True, text=True, timeout=timeout)
         log = p2.stdout + '\n' + p2.stderr
         out['ran'] = 'running 1 test' in log or 'test result' in log
         out['failed_natively'] = bool(re.search(r'test result: FAILED|panicked at', log))
